@@ -153,13 +153,19 @@ class DictInterp:
             return "<message>"
         if isinstance(e, ast.JoinedStr):
             return "<message>"
-        if isinstance(e, (ast.ListComp, ast.GeneratorExp)) and len(e.generators) == 1:
-            g = e.generators[0]
+        if isinstance(e, (ast.ListComp, ast.GeneratorExp, ast.SetComp)):
             out_l = []
-            for item in self.iterate(g.iter):
-                self.bind(g.target, item)
-                if all(self.truth(c_) for c_ in g.ifs):
+
+            def nest(k):
+                if k == len(e.generators):
                     out_l.append(self.ev(e.elt))
+                    return
+                g = e.generators[k]
+                for item in self.iterate(g.iter):
+                    self.bind(g.target, item)
+                    if all(self.truth(c_) for c_ in g.ifs):
+                        nest(k + 1)
+            nest(0)
             return out_l
         if isinstance(e, ast.BinOp) and isinstance(e.op, ast.BitOr):
             l, r = self.ev(e.left), self.ev(e.right)
@@ -167,13 +173,19 @@ class DictInterp:
                 out = l.copy("union")
                 out.data.update(r.data)
                 return out
-        if isinstance(e, (ast.DictComp,)) and len(e.generators) == 1:
-            g = e.generators[0]
+        if isinstance(e, ast.DictComp):
             out = ADict({}, "comprehension")
-            for item in self.iterate(g.iter):
-                self.bind(g.target, item)
-                if all(self.truth(c) for c in g.ifs):
+
+            def nest_d(k):
+                if k == len(e.generators):
                     out.data[self.ev(e.key)] = self.ev(e.value)
+                    return
+                g = e.generators[k]
+                for item in self.iterate(g.iter):
+                    self.bind(g.target, item)
+                    if all(self.truth(c) for c in g.ifs):
+                        nest_d(k + 1)
+            nest_d(0)
             return out
         if isinstance(e, ast.Call):
             return self.call(e)
